@@ -47,7 +47,10 @@ SPEC = Spec(
         "every encoded (sub)message is shorter than 2^63 bytes (Go int length)",
         "payloads are values of the generated structs reachable through the public pdata API or through a decoder; the API surface is "
         "modelled by the predicate ApiBuilt (no accessor reaches a Deprecated* field; bytes are bytes), checked per run on harness-built payloads",
-        "FloatLaws: strconv.ParseFloat(json.Marshal(f)) = f for finite f, ParseFloat(NaN/Infinity/-Infinity) special values, jsoniter "
+        "the JSON lexer (text -> tree) is outside the model: free-form documents are given to the model only when encoding/json parses them "
+        "completely (valid UTF-8, no surrogate escapes); no-panic/no-hang of the Go code is observed (recover + timeout; malformed, "
+        "type-directed and 10^5-deep inputs), not proved",
+        "FloatLaws + fparse_lt: strconv.ParseFloat(json.Marshal(f)) = f for finite f, ParseFloat(NaN/Infinity/-Infinity) special values, jsoniter "
         "ReadFloat64 agrees with ParseFloat (validated on every sampled double, not proved)",
     ],
 )
